@@ -4,6 +4,7 @@
 package main
 
 import (
+	"bytes"
 	"encoding/binary"
 	"encoding/xml"
 	"fmt"
@@ -313,6 +314,34 @@ func shardC11(c *Ctx, shard, nshards int) {
 	}
 }
 
+// c11Preexisting: in some histories the output path already holds a file from an earlier export - a longer one (a finer
+// render of a bigger part through a stock renderer) or unrelated bytes. What the sink holds afterwards must be this render only.
+func c11Preexisting(c *Ctx, r *Rng, path string, plan *c11Plan) {
+	switch r.I(5) {
+	case 0:
+		sph, _ := sdf.Sphere3D(1)
+		cir, _ := sdf.Circle2D(1)
+		cells := 10 + plan.Count/40
+		if cells > 60 {
+			cells = 60
+		}
+		switch filepath.Ext(path) {
+		case ".stl":
+			render.ToSTL(sph, path, render.NewMarchingCubesUniform(cells))
+		case ".3mf":
+			render.To3MF(sph, path, render.NewMarchingCubesUniform(cells))
+		case ".dxf":
+			render.ToDXF(cir, path, render.NewMarchingSquaresUniform(40*cells))
+		case ".svg":
+			render.ToSVG(cir, path, render.NewMarchingSquaresUniform(40*cells))
+		}
+		c.Count("histories_with_an_earlier_export_at_the_path", 1)
+	case 1:
+		os.WriteFile(path, bytes.Repeat([]byte("stale bytes of an earlier, longer file\n"), 200+plan.Count*8), 0644)
+		c.Count("histories_with_unrelated_bytes_at_the_path", 1)
+	}
+}
+
 func c11RunCase(c *Ctx, plan *c11Plan, r *Rng, T int, dir string, shape3 sdf.SDF3, shape2 sdf.SDF2) {
 	var got []int
 	var err error
@@ -386,18 +415,22 @@ func c11RunCase(c *Ctx, plan *c11Plan, r *Rng, T int, dir string, shape3 sdf.SDF
 		}
 	case "ToSTL":
 		path += ".stl"
+		c11Preexisting(c, r, path, plan)
 		render.ToSTL(shape3, path, &c11R3{plan, r})
 		got, err = c11ReadSTL(path)
 	case "To3MF":
 		path += ".3mf"
+		c11Preexisting(c, r, path, plan)
 		render.To3MF(shape3, path, &c11R3{plan, r})
 		got, err = c11Read3MF(path)
 	case "ToDXF":
 		path += ".dxf"
+		c11Preexisting(c, r, path, plan)
 		render.ToDXF(shape2, path, &c11R2{plan, r})
 		got, err = c11ReadDXF(path)
 	case "ToSVG":
 		path += ".svg"
+		c11Preexisting(c, r, path, plan)
 		render.ToSVG(shape2, path, &c11R2{plan, r})
 		got, err = c11ReadSVG(path)
 	}
